@@ -2,6 +2,7 @@
 model-checked for every small DAG; every transaction set is realised as wire.MsgTx values and the real
 DependencySort / Store.UnminedTxs must return one of the orders the specification admits."""
 import json
+from concurrent.futures import ThreadPoolExecutor
 import vlib
 
 LEVEL = "model_checking"
@@ -9,6 +10,43 @@ PROPS = ["C14"]
 
 CFG = {"quick": "MC_KahnSort_quick.cfg", "thorough": "MC_KahnSort_thorough.cfg"}
 ACTIONS = ("makeGraph", "graphRoots", "shortcut", "kahn")
+# btcd serialises transactions through one process-wide buffer free list (a channel), which caps the
+# useful parallelism of one driver process at about four goroutines: run several processes instead
+SHARDS = 4
+WORKERS_PER_SHARD = 4
+
+
+def run_sharded(drv, scratch, cases, seed):
+    """Split the cases round-robin over SHARDS driver processes and add up their reports."""
+    ins = [scratch.path("cases-%d.ndjson" % k) for k in range(SHARDS)]
+    outs = [scratch.path("report-%d.json" % k) for k in range(SHARDS)]
+    fs = [open(p, "w") for p in ins]
+    with open(cases) as f:
+        for i, line in enumerate(f):
+            fs[i % SHARDS].write(line)
+    for f in fs:
+        f.close()
+    with ThreadPoolExecutor(SHARDS) as ex:
+        jobs = [ex.submit(vlib.run_driver, drv, ["-in", ins[k], "-out", outs[k], "-workers", WORKERS_PER_SHARD,
+                                                  "-seed", seed * 10 + k], 3000) for k in range(SHARDS)]
+        for j in jobs:
+            j.result()
+    tot = None
+    for o in outs:
+        r = vlib.load_report(o)
+        if tot is None:
+            tot = r
+            for k in ("mismatches", "errors", "samples"):
+                tot[k] = tot[k] or []
+            continue
+        for k in ("traces", "steps", "checks", "distinct_nontrivial", "n_mismatch"):   # shards hold disjoint sets
+            tot[k] += r[k]
+        for k in ("mismatches", "errors", "samples"):
+            tot[k] += r[k] or []
+        for k, v in (r["extra"] or {}).items():
+            tot["extra"][k] = tot["extra"].get(k, 0) + v
+    tot["samples"] = tot["samples"][:3]
+    return tot
 
 
 def run(prop, tier, seed, scratch, replay=None):
@@ -42,8 +80,7 @@ def run(prop, tier, seed, scratch, replay=None):
         dead = [a for a in bfs["coverage_zero"] if a in ACTIONS]
         if dead:
             raise vlib.Broken("actions never taken in the exhaustive run: %s" % dead)
-    vlib.run_driver(drv, ["-in", cases, "-out", report, "-workers", vlib.NCPU, "-seed", seed], timeout=3000)
-    rep = vlib.load_report(report)
+    rep = run_sharded(drv, scratch, cases, seed)
     res.add_report(rep)
     if rep["traces"] != bfs["ntraces"]:
         res.errors.append("driver ran %d of %d transaction sets" % (rep["traces"], bfs["ntraces"]))
